@@ -784,6 +784,11 @@ where
             }))
             .await?;
 
+            // The flushers keep their current blocks: they must not continue the blobs they had open in them.
+            for flusher in this.inner.flushers.iter() {
+                flusher.submit(Submission::Reset);
+            }
+
             Ok(())
         }
         .boxed()
